@@ -464,3 +464,7 @@ mod tests {
         assert_eq!(col.sum::<i32>(), 9);
     }
 }
+
+#[cfg(kani)]
+#[path = "/verif/kani/matrix.rs"]
+mod verif_kani;
